@@ -8,7 +8,7 @@ from . import common as C
 from . import numgrid as G
 
 PROP = "C09"
-MODULES = ["RuschmProofs.C09"]
+MODULES = ["RuschmProofs.C09", "RuschmProofs.C09More"]
 UNARY = ["abs", "floor", "ceiling", "exact", "-", "/"]
 BINARY = ["+", "-", "*", "/", "floor-quotient", "floor-remainder"]
 TERNARY = ["+", "-", "*", "/"]
